@@ -18,6 +18,18 @@ for d in sorted(glob.glob("/verif/seeded/C*_m*")):
     runs = ", ".join("%s:%s" % (c["check"], {0: "miss", 1: "caught"}.get(c["exit"], "tool-error %s" % c["exit"])) for c in m.get("checks_run", []))
     first = ", ".join(m.get("missed_at_first_run_by", [])) or "-"
     rows.append("| %s | %s | %s | %s | %s |" % (m["id"], title[:110], "yes" if m.get("valid") else "NO", first, runs))
-print("| id | change (one line, from the author's README) | confirmed valid | missed at first run by | latest result of the checks run against it |")
-print("|---|---|---|---|---|")
-print("\n".join(rows))
+table = "\n".join(["| id | change (one line, from the author's README) | confirmed valid | missed at first run by | latest result of the checks run against it |",
+                   "|---|---|---|---|---|"] + rows)
+import sys
+if "--write" in sys.argv:
+    # replace the block between the markers in DESIGN.md
+    B, E = "<!-- SEEDED-TABLE-BEGIN -->", "<!-- SEEDED-TABLE-END -->"
+    d = open("/verif/DESIGN.md").read()
+    if "SEEDED-TABLE-PLACEHOLDER" in d:
+        d = d.replace("SEEDED-TABLE-PLACEHOLDER", B + "\n" + E)
+    i, j = d.index(B), d.index(E)
+    d = d[:i + len(B)] + "\n" + table + "\n" + d[j:]
+    open("/verif/DESIGN.md", "w").write(d)
+    print("DESIGN.md updated: %d rows" % len(rows))
+else:
+    print(table)
